@@ -18,7 +18,16 @@ def main(argv=None):
     if re.fullmatch(r"[Cc]\d{2,3}", cmd):
         from . import report
 
-        return report.main_check(cmd.upper(), tier, argv)
+        try:
+            return report.main_check(cmd.upper(), tier, argv)
+        except BaseException as e:  # noqa: BLE001  a crash of the driver is a harness error (exit 2), never a verdict
+            if isinstance(e, SystemExit):
+                raise
+            import traceback
+
+            traceback.print_exc()
+            print(f"[{cmd.upper()}] HARNESS-ERROR: driver crashed: {type(e).__name__}: {str(e)[:300]}", file=sys.stderr)
+            return 2
     if cmd == "replay":
         from . import report
 
